@@ -430,6 +430,9 @@ impl JSON {
                         key_value_pair = [key_value_pair, char.to_string()].join(SYMBOL.empty_string);
                         let mut number_of_open_square_brackets = 1;
                         let mut number_of_closed_square_brackets = 0;
+                        // brackets inside of a string value are not part of the structure
+                        let mut is_inside_string = false;
+                        let mut is_previous_char_backslash = false;
 
                         let mut read_char = true;
                         while read_char {
@@ -453,13 +456,18 @@ impl JSON {
                             }
                             let char = boxed_parse.unwrap().chars().last().unwrap();
 
-                            let is_open_square_bracket = char == '[';
+                            if char == '\"' && !is_previous_char_backslash {
+                                is_inside_string = !is_inside_string;
+                            }
+                            is_previous_char_backslash = char == '\\' && !is_previous_char_backslash;
+
+                            let is_open_square_bracket = char == '[' && !is_inside_string;
                             if is_open_square_bracket {
                                 number_of_open_square_brackets = number_of_open_square_brackets + 1;
                             }
 
 
-                            let is_close_square_bracket = char == ']';
+                            let is_close_square_bracket = char == ']' && !is_inside_string;
                             if is_close_square_bracket {
                                 number_of_closed_square_brackets = number_of_closed_square_brackets + 1;
                             }
@@ -507,6 +515,9 @@ impl JSON {
                         key_value_pair = [key_value_pair, char.to_string()].join(SYMBOL.empty_string);
                         let mut number_of_open_curly_braces = 1;
                         let mut number_of_closed_curly_braces = 0;
+                        // brackets inside of a string value are not part of the structure
+                        let mut is_inside_string = false;
+                        let mut is_previous_char_backslash = false;
 
                         let mut read_char = true;
                         while read_char {
@@ -536,13 +547,18 @@ impl JSON {
                             }
                             let char = boxed_last_char.unwrap();
 
-                            let is_open_curly_brace = char == '{';
+                            if char == '\"' && !is_previous_char_backslash {
+                                is_inside_string = !is_inside_string;
+                            }
+                            is_previous_char_backslash = char == '\\' && !is_previous_char_backslash;
+
+                            let is_open_curly_brace = char == '{' && !is_inside_string;
                             if is_open_curly_brace {
                                 number_of_open_curly_braces = number_of_open_curly_braces + 1;
                             }
 
 
-                            let is_close_curly_brace = char == '}';
+                            let is_close_curly_brace = char == '}' && !is_inside_string;
                             if is_close_curly_brace {
                                 number_of_closed_curly_braces = number_of_closed_curly_braces + 1;
                             }
